@@ -19,8 +19,13 @@ LEVEL_TEXT = ("Theorems (Lean 4) about the statement-by-statement model of the e
               "component, ordered inputs and feeder set; same phase configurations, groups, rails; same ordered phases - node indices, sibling "
               "order, registry order free) give solver views related by a renumbering (`toSSys_iso`), hence solve() succeeds on one iff on the "
               "other and the tables are equal up to row order (`histories_same_table`, `histories_same_error`; no well-formedness hypothesis left, "
-              "only that the topological order handed in is a valid one - rustworkx's order is a parameter of the model). NOT proved: "
-              "rail_rep / params / limits / phases / tree / save / diagrams as functions of the abstract structure - these rest on the differential test: after "
+              "only that the topological order handed in is a valid one - rustworkx's order is a parameter of the model). The configuration reports (Props/C16Reports, "
+              "about Model/Reports.lean, which is compared cell by cell with params(limits=True) / limits() / phases() / tree() of the edited system on every "
+              "check point): each lists exactly the live components (`params_lists_live`, `limits_lists_live`, `phases_lists_live` - full strength since the "
+              "Rectifier rows missing from phases() were repaired in /repo f863daa, a defect found by this model), shows the stored normalised parameter or "
+              "`interp` for a table (`params_show_normalised`), a limit iff it differs from the default (`limits_show_nondefault`), the per-phase value of a load "
+              "(`phases_show_values`), and all four are the same up to row order for every valid topological order (`reports_order_free`). NOT proved: "
+              "rail_rep / save / diagrams as functions of the abstract structure - these rest on the differential test: after "
               "random successful edit histories every report (solve, rail_rep, params, limits, phases, tree, save, make_diag) of "
               "the edited system is compared with the same report of systems built from scratch from the final structure in a "
               "canonical and in shuffled construction orders.")
@@ -28,7 +33,7 @@ LEVEL_NOTE = ("proved: bookkeeping factors through the abstraction; solver and s
               "order and topological order. Which law exception escapes when two components fail in the same sweep does depend on the "
               "processing order (the exception class does not). The composition of the two halves and the other reports are tested, not proved.")
 MODULE = "SysLoss.Props.C16"
-MODULES = ["SysLoss.Props.C16", "SysLoss.Props.C16Renumber", "SysLoss.Props.C16Final"]
+MODULES = ["SysLoss.Props.C16", "SysLoss.Props.C16Renumber", "SysLoss.Props.C16Final", "SysLoss.Props.C16Reports"]
 THEOREMS = [
     "SysLoss.C16.names_factor", "SysLoss.C16.rel_factors", "SysLoss.C16.phase_lkup_factors",
     "SysLoss.C16.noops_invisible", "SysLoss.C16.factors_nonvacuous", "SysLoss.C16.toSSys_node",
@@ -45,7 +50,11 @@ THEOREMS = [
     "SysLoss.C16F.toSSys_iso", "SysLoss.C16F.toSSys_tableWF", "SysLoss.C16F.toSSys_node?", "SysLoss.C16F.same_structure_same_table",
     "SysLoss.C16F.same_structure_same_error", "SysLoss.C16F.same_structure_isOk_iff", "SysLoss.C16F.histories_same_table",
     "SysLoss.C16F.histories_same_error", "SysLoss.C16F.exists_validTopo", "SysLoss.AStruct.Same.comps_perm",
-    "SysLoss.AStruct.Same.symm", "SysLoss.AStruct.Same.refl"]
+    "SysLoss.AStruct.Same.symm", "SysLoss.AStruct.Same.refl"] + ["SysLoss.C16P." + t for t in (
+    # Props/C16Reports: the Lean model of params() / limits() / phases() / tree() (Model/Reports.lean)
+    "params_lists_live", "limits_lists_live", "params_show_config", "params_show_normalised", "limits_show_nondefault",
+    "phases_rows_keys", "phases_lists_live", "phases_show_activity", "phases_show_values", "phases_rows_wf", "phases_domain",
+    "params_order_free", "tree_order_free", "phases_order_free", "reports_order_free", "tree_lists_live_partial", "regression_rectifier")]
 RULE = ("random edit histories of 5-50 calls (all six methods, ~20% rejected and dropped, components with limits and interpolation "
         "tables, phases, groups, rails, a PMux in ~50%) with forced coverage of: rename through change_comp, deletion with and "
         "without children, re-adding a deleted name, edits above / below / of the PMux and of its inputs, source deletion freeing "
@@ -225,6 +234,40 @@ def final_structure(run):
             "phase_conf": dict((k, v) for k, v in st["phase_conf"]), "phases": list(st["phases"])}
 
 
+def fs_to_desc(fs, order):
+    """the final structure in the description form of harness/sysdesc.py (for the Lean model of the reports)"""
+    main = {"source": "vo", "pload": "pwr", "iload": "ii", "rload": "rs", "rloss": "rs", "vloss": "vdrop", "converter": "vo",
+            "linreg": "vo", "pswitch": "rs", "pmux": "rs", "rectifier": "rs"}
+    comps = []
+    for n in order:
+        c = fs["comps"][n]
+        d = c["desc"]
+        k = d["kind"]
+        args = {main[k]: d["val"]}
+        if k == "converter":
+            args["eff"] = 0.9
+        if d.get("limits"):
+            args["limits"] = json.loads(json.dumps(d["limits"]))
+        if d.get("table") and k in H.TABLE_KEY:
+            z = H.TABLE_KEY[k]
+            args[z] = {"vi": [3.3], "io": [0.1, 0.5, 0.9], z: [[0.55, 0.78, 0.92]] if z == "eff" else [[1e-5, 2e-5, 5e-5]]}
+        e = {"name": n, "kind": k, "args": args, "parents": list(c["parents"])}
+        if k == "pmux":
+            e["plist"] = True
+        g, r = fs["groups"].get(n, ""), fs["rails"].get(n, "")
+        if g:
+            e["group"] = g
+        if r and k not in H.LOADS:
+            e["rail"] = r
+        conf = fs["phase_conf"].get(n)
+        if conf is not None:
+            pc = list(conf["names"]) if "names" in conf else {a: float(b) for a, b in conf["table"]}
+            if pc != {} and pc != []:
+                e["pconf"] = pc
+        comps.append(e)
+    return {"name": fs["name"], "comps": comps, "phases": {a: float(b) for a, b in fs["phases"]}}
+
+
 def build_order(fs, rng=None):
     """a construction order (parents first); canonical = by name, else shuffled"""
     names = sorted(fs["comps"])
@@ -349,6 +392,10 @@ def check_point(ctx, run, stream, diag=False):
         shown = sorted(k[0][0] for k in rep["params"][1])
         if shown != live:
             out.append(("lists_live", {"report": "params", "shown": shown, "live": live}))
+    if rep["phases"][0] == "ok" and rep["phases"][1] is not None:
+        shown = sorted(set(k[0][0] for k in rep["phases"][1]))
+        if shown != live:
+            out.append(("lists_live", {"report": "phases", "shown": shown, "live": live}))
     if rep["solve"][0] == "ok":
         shown = sorted(set(k[0][0] for k, v in rep["solve"][1].items() if v.get("Type", "") != ""))
         if shown != live:
@@ -375,6 +422,15 @@ def check_point(ctx, run, stream, diag=False):
     if fresh is None:
         out.append(("same_as_fresh", {"why": "the final structure cannot be built from scratch", "error": err, "order": order}))
         return out, rep
+    # the configuration reports of the EDITED system against the Lean model of params / limits / phases / tree
+    # (Model/Reports.lean) evaluated on the final structure: model-vs-implementation, recorded as correspondence
+    from .. import reportscheck
+    try:
+        for rname_, col, detail in reportscheck.diff_reports(ctx.drv, run.sys, fs_to_desc(fs, order)):
+            ctx.corr({"history": run.history(), "calls": H.short(run.history())}, "report: %s/%s" % (rname_, col), dict(detail, stream=stream))
+        ctx.stats["%s:reports_vs_model" % stream] += 1
+    except Exception as e:       # noqa  - a description the report model cannot take (counted, never a verdict)
+        ctx.stats["%s:reports_vs_model:skipped:%s" % (stream, type(e).__name__)] += 1
     frep = reports(fresh, diag=diag)
     for name in rep:
         d = diff_report(name, rep[name], frep[name])
